@@ -708,6 +708,14 @@ impl Actor {
         #[cfg(feature = "verif-hooks")]
         crate::verif::actor_exit_pause();
 
+        // No further requests are served. Close the inbox so that senders get an error, and drop
+        // what is still queued: a request that slipped in while we were leaving the loop would
+        // otherwise keep its reply channel alive inside the queue and its caller would wait forever.
+        self.action_rx.close();
+        while let Ok(action) = self.action_rx.try_recv() {
+            drop(action);
+        }
+
         if let Err(cause) = self.store.flush() {
             warn!(?cause, "failed to flush store");
         }
